@@ -164,8 +164,9 @@ prop('C12',
            'Duration::from_millis of the parsed number, so every ms-granular TTL/heartbeat round-trips and every parsed duration '
            'satisfies is_expired\'s precondition. The text grammar is checked by the bounded Kani units when present.',
      technique=TECH,
-     units=['verus:expiry'],
-     obligations=['expiry.ttl.*', 'expiry.follow.*', 'expiry.ttl_*.body', 'expiry.parse_ttl_time_ctor.body', 'expiry.follow_*.body'],
+     units=['verus:expiry', 'verus:codec_ops'],
+     obligations=['expiry.ttl.*', 'expiry.follow.*', 'expiry.ttl_*.body', 'expiry.parse_ttl_time_ctor.body', 'expiry.follow_*.body',
+                  'codec.parse_ttl.*', 'codec.to_query_string.*', 'codec_ops.*.body'],
      trusted=['extraction', 'duration', 'overflow'],
      explanation='Slices: the argument expressions of the serializer format!s and the constructor expressions of the parsers.',
      not_decided='Frame/meta JSON via serde, serde_urlencoded, nu value conversion; symbolic text round trip')
@@ -254,7 +255,9 @@ prop('C13',
      technique=TECH,
      units=['verus:api_ops'],
      obligations=['api_ops.meta_header_str.body', 'api.cas_get.*', 'api.import.bad_json_rejected', 'api.import.error_no_effect',
-                  'api.append.frame_from_request', 'api.append.error_no_append', 'api.head_follow.*', 'api.cas_post.empty_rejected'],
+                  'api.append.frame_from_request', 'api.append.error_no_append', 'api.head_follow.*', 'api.cas_post.empty_rejected',
+                  'api.route.*', 'api.validate_integrity.*', 'api_ops.route_ctx_param_*.body', 'api_ops.validate_integrity.body',
+                  'api_ops.cas_get_arm.body'],
      trusted=['extraction', 'sequential'],
      explanation='Totality / faithfulness obligations on slices; the route table and response rendering are out of reach.',
      not_decided='match_route, NDJSON/SSE rendering, request sequences (hyper/tokio/url are outside both verifiers)')
